@@ -81,6 +81,8 @@ type topoRun struct {
 	idleNotEnforced []string
 }
 
+var topoMutes int // mute faults applied in this run (all behaviours)
+
 func (tr *topoRun) probe(n int) map[string]bool {
 	got := map[string]bool{}
 	for i := 0; i < n; i++ {
@@ -179,6 +181,34 @@ func (tr *topoRun) apply(st topoStep) {
 	case "mute":
 		// heartbeat silence: the node stops answering on its existing connections; the proxy must give them up once
 		// the idle timeout (600 ms) has passed without an answered heartbeat (interval 150 ms) and replace them
+		// every other time the node's pooled connections are dropped first, so that the silent connections are ones the
+		// pool re-established (they must be watched like the initial ones)
+		topoMutes++
+		if topoMutes%2 == 1 {
+			if n := c.Node(ip); n != nil {
+				for _, cn := range n.Conns() {
+					if !cn.Registered {
+						cn.Close("before-mute")
+					}
+				}
+			}
+			deadline := time.Now().Add(3 * time.Second)
+			for time.Now().Before(deadline) {
+				if n := c.Node(ip); n != nil {
+					pooled := 0
+					for _, cn := range n.Conns() {
+						if !cn.Registered && !cn.Closed() {
+							pooled++
+						}
+					}
+					if pooled >= 1 {
+						break
+					}
+				}
+				time.Sleep(20 * time.Millisecond)
+			}
+			time.Sleep(100 * time.Millisecond)
+		}
 		var before []*fakecql.Conn
 		if n := c.Node(ip); n != nil {
 			before = n.Conns()
